@@ -136,7 +136,12 @@ func (evt *startEvent) NextAction(ctx context.Context, flow Flow) chan IAction {
 	// buffered: the node answers exactly once per request and must not block
 	// on a flow that has gone (instance cancelled)
 	response := make(chan IAction, 1)
-	evt.mch <- nextActionMessage{response: response, flow: flow}
+	// the run loop exits when ctx is done: a flow arriving then must not wait
+	// for room in an inbox nobody drains any more
+	select {
+	case evt.mch <- nextActionMessage{response: response, flow: flow}:
+	case <-ctx.Done():
+	}
 	return response
 }
 
